@@ -607,7 +607,11 @@ func (g *HistGen) genGet() {
 
 // variant of a registered native expression: same text, extra white space, or an anagram
 func (g *HistGen) variant(e string) string {
-	switch g.r.Intn(7) {
+	switch g.r.Intn(9) {
+	case 7: // exactly one space in front: the same expression
+		return " " + e
+	case 8: // exactly one space (or one tab, one newline) behind: the same expression
+		return e + pick(g.r, []string{" ", " ", "\t", "\n"})
 	case 6: // a space character the lexer does not know: a different (and malformed) expression
 		return strings.Replace(e, " ", pick(g.r, []string{"\u00a0", "\v", "\f", "\u0085", "\u2003"}), 1)
 	case 5: // another letter case somewhere outside the placeholders: a different expression
